@@ -1,6 +1,8 @@
 /- Line-protocol driver: runs the executable models on the same operation lines as harness/aj_harness.cpp.
    Imports models and specs only (no proofs, no Mathlib), so it links even when a property theorem is broken. -/
 import AJ
+import AJ.Model.JDD
+import AJ.Model.MDD
 open JD
 
 def hexDigit (n : Nat) : Char := if n < 10 then Char.ofNat (48 + n) else Char.ofNat (87 + n)
@@ -183,6 +185,30 @@ def handle (st : DState) (ws : List String) : String × DState :=
       match docOfSpec spec with
       | none => pure "bad-doc"
       | some v => pure s!"1 {hexBytes (CA.copyStr v (List.replicate n.toNat! 0x5A))}"
+  | ["mpdoc", lim, pre, fail, hex] =>
+      let g : PL.Geo := ⟨Gen.pool_capacity, Gen.initial_pool_count, Gen.slot_id_size, Gen.slot_size, Gen.pool_object_size⟩
+      let d0 := DH.newDocG g Gen.string_overhead 0
+      let d0 := if pre == "1" then (JDD.run {} 10 d0 "[1,\"abc\",{\"k\":2,\"abc\":12345678901}]".toUTF8.toList).2.1 else d0
+      let d0 := { d0 with pl := { d0.pl with log := [] } }
+      let k := (fail.drop 1).toString.toNat!
+      let d0 := if fail.startsWith "a" then { d0 with pl := { d0.pl with failAt := [d0.pl.calls + k] } }
+                else if fail.startsWith "f" then { d0 with pl := { d0.pl with failFrom := some (d0.pl.calls + k) } } else d0
+      let (c, d, pos) := MDD.run { maxStrLen := Gen.string_max_length } lim.toNat! d0 (unhex hex)
+      let log := " ".intercalate (d.pl.log.reverse.map (fun e => s!"a0:{e}"))
+      pure s!"{showCode c} {d.show d.root} {pos} o={if d.overflowed then 1 else 0}|{log}"
+  | ["jsondoc", cfgs, lim, pre, fail, hex] =>
+      -- slot-level deserializeJson (AJ/Model/JDD.lean) with the allocator log
+      let cfg := cfgOfBits cfgs.toNat!
+      let g : PL.Geo := ⟨Gen.pool_capacity, Gen.initial_pool_count, Gen.slot_id_size, Gen.slot_size, Gen.pool_object_size⟩
+      let d0 := DH.newDocG g Gen.string_overhead 0
+      let d0 := if pre == "1" then (JDD.run cfg 10 d0 "[1,\"abc\",{\"k\":2,\"abc\":12345678901}]".toUTF8.toList).2.1 else d0
+      let d0 := { d0 with pl := { d0.pl with log := [] } }
+      let k := (fail.drop 1).toString.toNat!
+      let d0 := if fail.startsWith "a" then { d0 with pl := { d0.pl with failAt := [d0.pl.calls + k] } }
+                else if fail.startsWith "f" then { d0 with pl := { d0.pl with failFrom := some (d0.pl.calls + k) } } else d0
+      let (c, d, pos) := JDD.run cfg lim.toNat! d0 (unhex hex)
+      let log := " ".intercalate (d.pl.log.reverse.map (fun e => s!"a0:{e}"))
+      pure s!"{showCode c} {d.show d.root} {pos} o={if d.overflowed then 1 else 0}|{log}"
   | ["jsonde", cfgs, _rk, lim, hex] =>
       let (c, v, pos) := run (cfgOfBits cfgs.toNat!) lim.toNat! (unhex hex)
       pure s!"{showCode c} {showVal v} {pos}"
